@@ -10,6 +10,11 @@ package main
 
 import (
 	"fmt"
+	"os"
+	"os/exec"
+	"path/filepath"
+	"runtime/debug"
+	"strconv"
 	"strings"
 
 	"github.com/goghcrow/yae/types"
@@ -415,41 +420,38 @@ func runC17(r *Run) {
 	}
 	r.Notes = append(r.Notes, fmt.Sprintf("exhaustive block: %d patterns^2 x %d grounds^2, stride %d", len(pats), len(grds), stride))
 
-	// exhaustive, variables on BOTH sides (occurs check after substitution, bindings made earlier in the same call)
+	// exhaustive, variables on BOTH sides (occurs check after substitution, bindings made earlier in the same call).
+	// A unifier that lets a cyclic binding through recurses for ever on the next application and dies with a fatal stack
+	// overflow, so the pairs are screened in a child process first; a pair that kills the child is reported and skipped.
 	{
-		two := []*T{a, b, num, tp("list", a), tp("list", b), tp("list", num)}
-		for _, p1 := range two {
-			for _, p2 := range two {
-				for _, q1 := range two {
-					for _, q2 := range two {
-						c17Pair(r, tp("tuple", p1, p2), tp("tuple", q1, q2), nil)
-					}
-				}
+		pairs := twoSidedPairs(r.Seed, r.Tier)
+		crashed := map[int]bool{}
+		start := 0
+		prog := filepath.Join(r.OutDir, "c17screen.txt")
+		for round := 0; round < 25 && start < len(pairs); round++ {
+			os.WriteFile(prog, []byte("-1"), 0o644)
+			cmd := exec.Command(os.Args[0], "C17screen", fmt.Sprint(r.Seed), r.Tier, fmt.Sprint(start), prog)
+			err := cmd.Run()
+			if err == nil {
+				start = len(pairs)
+				break
 			}
-		}
-		wide := enumTypes(1, []*T{num, a, b}, false)
-		stride2 := 1
-		if r.Tier == "quick" {
-			stride2 = 23
-		}
-		k2 := int(r.Seed % int64(stride2))
-		if k2 < 0 {
-			k2 = -k2
-		}
-		idx2 := 0
-		for _, p1 := range wide {
-			for _, p2 := range wide {
-				for _, q1 := range wide {
-					for _, q2 := range wide {
-						idx2++
-						if idx2%stride2 == k2 {
-							c17Pair(r, tp("tuple", p1, p2), tp("tuple", q1, q2), nil)
-						}
-					}
-				}
+			b, _ := os.ReadFile(prog)
+			idx, _ := strconv.Atoi(strings.TrimSpace(string(b)))
+			if idx < start || idx >= len(pairs) {
+				break
 			}
+			crashed[idx] = true
+			r.Violate("unify-kills-the-process", fmt.Sprintf("%s ~ %s", pairs[idx][0], pairs[idx][1]), fmt.Sprintf("child process died in types.Unify / applySubst: %v (non-terminating recursion on a cyclic substitution)", err))
+			start = idx + 1
 		}
-		r.Notes = append(r.Notes, fmt.Sprintf("two-sided exhaustive blocks: %d^4 (all) and %d^4 with stride %d", len(two), len(wide), stride2))
+		for i, p := range pairs {
+			if crashed[i] || (len(crashed) >= 25 && i >= start) {
+				continue
+			}
+			c17Pair(r, p[0], p[1], nil)
+		}
+		r.Notes = append(r.Notes, fmt.Sprintf("two-sided exhaustive blocks: %d pairs, screened in a child process first (%d killed it)", len(pairs), len(crashed)))
 	}
 
 	// shared type nodes: Go types are graphs — the checker hands out the environment's own *Type for an identifier, so
@@ -699,4 +701,62 @@ func cyclicBinding(m map[string]*types.Type) string {
 		}
 	}
 	return ""
+}
+
+// twoSidedPairs: the deterministic two-sided blocks (all of 6^4 small pairs, a stride of 18^4 wider ones).
+func twoSidedPairs(seed int64, tier string) [][2]*T {
+	a, b := &T{K: "var", Name: "a"}, &T{K: "var", Name: "b"}
+	num := tp("num")
+	var out [][2]*T
+	two := []*T{a, b, num, tp("list", a), tp("list", b), tp("list", num)}
+	for _, p1 := range two {
+		for _, p2 := range two {
+			for _, q1 := range two {
+				for _, q2 := range two {
+					out = append(out, [2]*T{tp("tuple", p1, p2), tp("tuple", q1, q2)})
+				}
+			}
+		}
+	}
+	wide := enumTypes(1, []*T{num, a, b}, false)
+	stride2 := 1
+	if tier == "quick" {
+		stride2 = 23
+	}
+	k2 := int(seed % int64(stride2))
+	if k2 < 0 {
+		k2 = -k2
+	}
+	idx2 := 0
+	for _, p1 := range wide {
+		for _, p2 := range wide {
+			for _, q1 := range wide {
+				for _, q2 := range wide {
+					idx2++
+					if idx2%stride2 == k2 {
+						out = append(out, [2]*T{tp("tuple", p1, p2), tp("tuple", q1, q2)})
+					}
+				}
+			}
+		}
+	}
+	return out
+}
+
+// c17Screen: child mode — unify every two-sided pair from index start on, writing the index to the progress file first.
+func c17Screen(seed int64, tier string, start int, prog string) {
+	debug.SetMaxStack(32 << 20)
+	pairs := twoSidedPairs(seed, tier)
+	for i := start; i < len(pairs); i++ {
+		os.WriteFile(prog, []byte(fmt.Sprint(i)), 0o644)
+		gx, gy := pairs[i][0].Go(), pairs[i][1].Go()
+		m := map[string]*types.Type{}
+		out := implUnify(gx, gy, m)
+		if out.cls == "ok" && cyclicBinding(out.m) == "" {
+			protect(func() { types.VerifApplySubst(gx, out.m); types.VerifApplySubst(gy, out.m) })
+			// a second unification through the same substitution (bindings made earlier are chased again)
+			protect(func() { types.Unify(gy, gx, out.m) })
+		}
+	}
+	os.Exit(0)
 }
